@@ -123,6 +123,32 @@ def run_same_strings(case):
         shutil.rmtree(base, ignore_errors=True)
 
 
+def run_redeclared(case):
+    """One process declares a store, uses it (keep + load, so that the object cache holds the result), then the SAME configuration strings
+    come to designate another internal directory - the name is a symbolic link that is re-pointed, or the directory is removed and created
+    again by the next declaration - and the store is declared again (same or another data directory): the second declaration is a usable
+    configuration of its own; what is kept under it must be readable by a second process with the same configuration."""
+    base = tempfile.mkdtemp(prefix="c16r_", dir=C.scratch_dir())
+    try:
+        write_mod(base)
+        for d in ("real_a", "real_b"):
+            os.makedirs(os.path.join(base, d))
+        os.symlink(os.path.join(base, "real_a"), os.path.join(base, "int"))
+        # re-pointed: the name is a symbolic link; removed: a plain directory that the first declaration creates
+        iname = "int" if case["change"] == "repoint" else "int_plain"
+        cfg_a = {"internal_dir": os.path.join(base, iname), "data_dir": os.path.join(base, "view_a"), "cache_objects": case["cache"]}
+        cfg_b = dict(cfg_a, data_dir=os.path.join(base, "view_b" if case["view"] == "other" else "view_a"))
+        change = {"repoint": ["real_b", "int"]} if case["change"] == "repoint" else {"rmtree": "int_plain"}
+        steps = [{"set_store": cfg_a}, {"keep": ["/p", "s0"]}, {"load": "/p"}, change, {"set_store": cfg_b}, {"keep": ["/p", "s0"]}, {"load": "/p"}]
+        r1 = C.run_driver("drive_config.py", {"base": base, "steps": steps})
+        r2 = C.run_driver("drive_config.py", {"base": base, "steps": [{"set_store": cfg_b}, {"load": "/p"}, {"keep": ["/p", "s0"]}]})
+        return {"case": case, "r1": r1, "r2": r2}
+    except Exception as e:  # noqa
+        return {"case": case, "error": str(e)[-500:]}
+    finally:
+        shutil.rmtree(base, ignore_errors=True)
+
+
 def run(rep, tier, seed, proof_ok):
     rng = random.Random(seed)
     rep.rule = ("local-store configurations: internal_dir x data_dir shapes {absolute, relative, ./relative, trailing slash, nested "
@@ -175,8 +201,30 @@ def run(rep, tier, seed, proof_ok):
         res = list(ex.map(run_case, cases))
         vres = list(ex.map(run_views, [{"cache": c} for c in CACHE]))
         sres = list(ex.map(run_same_strings, [{"cache": c, "internal": i} for c in CACHE[:3] for i in ("absolute", "relative")]))
+        rres = list(ex.map(run_redeclared, [{"cache": c, "view": v, "change": ch} for c in CACHE for v in ("other", "same") for ch in ("repoint", "rmtree")]))
         nested = c16_nested.collect(rep, nested)
         nested.update(c16_fs.collect(rep, fsys))
+    for r in rres:
+        c = r["case"]
+        rep.case("redeclared:" + json.dumps(c))
+        if "error" in r:
+            rep.violation("harness-error:c16", r["error"][-300:], r, no_input=True)
+            continue
+        r1, r2 = r["r1"], r["r2"]
+        bad = []
+        if r1[1] != "V:value-s0:ran=1" or r1[2] != "L:value-s0":
+            bad.append(("first declaration", r1[1], r1[2]))
+        if not r1[5].startswith("V:value-s0") or r1[6] != "L:value-s0":
+            bad.append(("second declaration", r1[5], r1[6]))
+        if r2[1] != "L:value-s0":
+            bad.append(("second process: load", r2[1], "L:value-s0"))
+        if r2[2] != "V:value-s0:ran=0":
+            bad.append(("second process: keep", r2[2], "V:value-s0:ran=0"))
+        if bad:
+            how = "a symbolic link that is re-pointed to an empty directory" if c["change"] == "repoint" else "removed and created again by the next declaration"
+            rep.violation("config-redeclared-internal-directory-replaced", f"one process declares the store twice (cache_objects={c['cache']}, "
+                          f"{'another' if c['view'] == 'other' else 'the same'} data directory) and the internal directory is {how} in between: {bad[:3]}",
+                          {"case": c, "r1": r1, "r2": r2})
     for r in sres:
         c = r["case"]
         rep.case("same-strings:" + json.dumps(c))
@@ -244,6 +292,7 @@ def replay(path):
         return c16_fs.replay(r)
     if "nested_case" in r:
         return c16_nested.replay(r)
-    out = run_case(r["case"]) if "ishape" in r.get("case", {}) else run_views(r["case"])
+    c = r.get("case", {})
+    out = run_case(c) if "ishape" in c else run_redeclared(c) if "change" in c else run_same_strings(c) if "internal" in c else run_views(c)
     print(json.dumps(out, indent=1)[:3000])
     return 1
